@@ -1626,6 +1626,10 @@ TWICE_FEATS = frozenset(("bag-arg", "bag-kwarg", "item-arg", "item-kwarg", "self
                          "same-bag-arg", "same-bag-kwarg"))
 
 
+# features that exist for the coverage counters only (one mechanism = one label: they must not multiply labels)
+COUNT_ONLY_FEATS = frozenset(("split_every>npartitions", "three-levels", "warn"))
+
+
 def _pipe_names(steps):
     """names used in labels of failures that need the whole pipeline: earlier steps by class, a last step that
     reads its input twice by that property (the mechanism), otherwise by name"""
@@ -1641,7 +1645,8 @@ def _label(steps, parts, sym, how="delayed"):
     """<op>:<features>:<symptom>; for a pipeline that only fails as a whole the earlier steps are named by class"""
     last = steps[-1]
     names, lf = _pipe_names(steps)
-    feats = (last.features(len(parts) if len(steps) == 1 else None) if lf is None else lf) + G.layout_features(parts)
+    feats = [f for f in (last.features(len(parts) if len(steps) == 1 else None) if lf is None else lf) if f not in COUNT_ONLY_FEATS]
+    feats += G.layout_features(parts)
     if how == "literal":
         feats.append("from_sequence")      # needed the graph shape of from_sequence to reproduce
     return "%s:%s:%s" % (">".join(names), "&".join(feats) if feats else "any", sym)
@@ -1773,7 +1778,7 @@ def _diagnose(ctx, steps, states, bag, parts, layout, sym, sched, detail):
         # not reproducible on a rebuilt bag (depends on key names / graph order / thread timing): label the pipeline
         # shape only, no layout predicate can be established
         names, lf = _pipe_names(steps)
-        feats = (steps[-1].features(None) if lf is None else lf) + ["unshrunk"]
+        feats = [f for f in (steps[-1].features(None) if lf is None else lf) if f not in COUNT_ONLY_FEATS] + ["unshrunk"]
         ctx.violation("%s:%s:%s" % (">".join(names), "&".join(feats), sym),
                       "pipeline %s: expected %s got %s" % (detail["pipeline"], detail["expected"][:300], detail["got"][:300]), **detail)
         return
